@@ -256,45 +256,58 @@ impl<T: Qcow2IoOps> Qcow2Dev<T> {
                     e.set_dirty(false);
                     cleared.push(e);
 
+                    // Clusters to be zeroed before this slice may be written:
+                    // the cluster holding it, if that is a new one, and for
+                    // an l2 slice the new data clusters it maps. Usually the
+                    // write which allocated a data cluster has zeroed it
+                    // long ago, but it may not have got there yet, or have
+                    // failed. The mapping must not reach the disk with
+                    // the previous owner's data still in the cluster.
+                    let mut to_zero = Vec::new();
                     match cache.get_offset() {
-                        Some(cache_off) => {
-                            let key = cache_off >> info.cluster_bits();
-
-                            if let Entry::Vacant(slot) = cluster_map.entry(key) {
-                                // Never wait for the per-cluster lock with the map's read
-                                // guard held: the lock's owner (another flush of a sibling
-                                // slice) keeps it until it has removed the cluster from the
-                                // map, which needs the map's write lock.
-                                let cluster = {
-                                    let cls_map = self.new_cluster.read().await;
-                                    cls_map.get(&key).cloned()
-                                };
-                                // keep this cluster locked, so that concurrent discard can
-                                // be avoided
-                                if let Some(cluster) = cluster {
-                                    let mut locked_cls = cluster.write().await;
-
-                                    log::debug!(
-                                        "flush_cache_entries: discard cluster {:x} done {}",
-                                        info.cluster_round_down(cache_off),
-                                        *locked_cls
-                                    );
-                                    if !(*locked_cls) {
-                                        // mark it as discarded, so others can observe it after
-                                        // grabbing write lock
-                                        *locked_cls = true;
-                                        f_vec.push(self.call_fallocate(
-                                            info.cluster_round_down(cache_off),
-                                            info.cluster_size(),
-                                            Qcow2OpsFlags::FALLOCATE_ZERO_RANGE,
-                                        ));
-                                        slot.insert(locked_cls);
-                                    }
-                                }
-                            }
-                        }
+                        Some(cache_off) => to_zero.push(info.cluster_round_down(cache_off)),
                         _ => {
                             eprintln!("flush cache: dirty cache without offset");
+                        }
+                    }
+                    if mapping && !self.new_cluster.read().await.is_empty() {
+                        to_zero.extend(cache.mapped_data_clusters());
+                    }
+
+                    for cls_off in to_zero {
+                        let key = cls_off >> info.cluster_bits();
+
+                        if let Entry::Vacant(slot) = cluster_map.entry(key) {
+                            // Never wait for the per-cluster lock with the map's read
+                            // guard held: the lock's owner (another flush of a sibling
+                            // slice) keeps it until it has removed the cluster from the
+                            // map, which needs the map's write lock.
+                            let cluster = {
+                                let cls_map = self.new_cluster.read().await;
+                                cls_map.get(&key).cloned()
+                            };
+                            // keep this cluster locked, so that concurrent discard can
+                            // be avoided
+                            if let Some(cluster) = cluster {
+                                let mut locked_cls = cluster.write().await;
+
+                                log::debug!(
+                                    "flush_cache_entries: discard cluster {:x} done {}",
+                                    cls_off,
+                                    *locked_cls
+                                );
+                                if !(*locked_cls) {
+                                    // mark it as discarded, so others can observe it after
+                                    // grabbing write lock
+                                    *locked_cls = true;
+                                    f_vec.push(self.call_fallocate(
+                                        cls_off,
+                                        info.cluster_size(),
+                                        Qcow2OpsFlags::FALLOCATE_ZERO_RANGE,
+                                    ));
+                                    slot.insert(locked_cls);
+                                }
+                            }
                         }
                     }
                     // holding this cache's read block until this flush is done
